@@ -371,13 +371,13 @@ class C10(Check):
                     else:
                         fs.put(path, payload0)
 
-        def read(fs, at=co0):
+        def read(fs, at=co0, limit=WATCHDOG_CPU_S):
             with mounted(fs):
                 a = get_accessor_for_url(DS, {})
                 p = precomputed_io.get_IO_for_existing_dataset(a)
                 # CPU-time watchdog (ITIMER_PROF): wall-clock time would
                 # make the oracle depend on machine load
-                signal.setitimer(signal.ITIMER_PROF, WATCHDOG_CPU_S)
+                signal.setitimer(signal.ITIMER_PROF, limit)
                 try:
                     return sut(p.read_chunk, "k", at)
                 finally:
@@ -452,7 +452,13 @@ class C10(Check):
             try:
                 st, got = read(fs, at)
             except Hang:
-                st, got = "hang", None
+                # confirm with a six times larger budget before calling it a
+                # hang: a genuine endless loop exceeds that as well
+                try:
+                    st, got = read(fs, at, limit=6 * WATCHDOG_CPU_S)
+                    res.probe("watchdog_fired_but_decode_finished")
+                except Hang:
+                    st, got = "hang", None
             steps += fs.total_calls
             evals += 1
             res.probe("kind_" + label)
